@@ -64,10 +64,12 @@ def impl_eval(case):
         blocked = bool(case['b'])
         src = Pipe(data) if case.get('pipe') else io.BytesIO(data)
         if case.get('reader') == 'vbs':
-            recs, exc = read_all(mciipm.VbsReader(src, blocked=blocked))
+            rd = mciipm.VbsReader(src, blocked=blocked)
+            recs, exc = read_all(rd)
             body = ','.join(common.sig(r) for r in recs)
         else:
-            recs, exc = read_all(mciipm.IpmReader(src, encoding=codec, iso_config=cfg, blocked=blocked))
+            rd = mciipm.IpmReader(src, encoding=codec, iso_config=cfg, blocked=blocked)
+            recs, exc = read_all(rd)
             body = '|'.join(iu.dict_wire({k: v for k, v in r.items() if not k.startswith('DE43_')}, sort=True)
                             for r in recs)
         end = render_end(exc) if not isinstance(exc, common.CaseTimeout) else 'diverge'
@@ -75,6 +77,21 @@ def impl_eval(case):
         why = None
         if exc is not None and not isinstance(exc, mciipm.MciIpmDataError):
             why = f'reader iteration raised {type(exc).__name__} — not end-of-data or the library data error'
+        elif exc is None:
+            # the exhausted reader asked AGAIN (next() after the end, a second loop over it): end of data again, or the
+            # library's data error — nothing else
+            for again in ('next', 'loop'):
+                try:
+                    if again == 'next':
+                        next(rd)
+                    else:
+                        for _ in rd:
+                            break
+                except (StopIteration, mciipm.MciIpmDataError):
+                    pass
+                except Exception as ex2:  # noqa
+                    why = f'asking the exhausted reader again ({again}) raised {type(ex2).__name__}'
+                    break
         return {'obs': f'ok {body} {end}', 'violation': why, 'nontrivial': True,
                 'tags': [f"file:{case.get('reader', 'ipm')}", 'end:' + end.split(':')[0]]}
     if case['k'] == 'cli':
